@@ -58,9 +58,15 @@ fn pool_of(mask: usize, n: usize) -> PoolAddresses {
 }
 fn row<'a>(t: &'a T, ip: Ipv4Addr) -> Option<&'a R> { t.iter().find(|r| ADDRS[r.addr] == ip) }
 fn dump(p: &mut Pool) -> Vec<(String, Vec<u8>, u32, u32)> {
-    let mut v: Vec<_> = p.get_leases().expect("get_leases").into_iter().map(|l| (l.ip.to_string(), l.client_id, l.start, l.expire)).collect();
-    v.sort();
-    v
+    match p.get_leases() {
+        Ok(l) => {
+            let mut v: Vec<_> = l.into_iter().map(|l| (l.ip.to_string(), l.client_id, l.start, l.expire)).collect();
+            v.sort();
+            v
+        }
+        // an unreadable lease table never equals an expected one
+        Err(e) => vec![(format!("get_leases failed: {:?}", e), vec![], 0, 0)],
+    }
 }
 struct Tally { name: &'static str, evals: u64, fails: u64 }
 impl Tally {
@@ -237,7 +243,10 @@ fn verif_sql_contracts() {
             Ok(mut p) => {
                 let got = dump(&mut p);
                 let ver: i64 = p.conn.query_row("SELECT version FROM schema_version WHERE key = 'pool'", rusqlite::params![], |r| r.get(0)).unwrap_or(-1);
-                t_v0.check(got == want && ver == 1, || format!("table={:?} got={:?} version={}", t, got, ver));
+                let mut pool_all = PoolAddresses::default();
+                for a in ADDRS { pool_all.insert(a); }
+                let usable = p.allocate_address(b"c9", None, &pool_all, DEFAULT_MIN_LEASE, DEFAULT_MAX_LEASE, b"").is_ok() || t.len() >= 3;
+                t_v0.check(got == want && ver == 1 && usable, || format!("table={:?} got={:?} version={} usable_after_upgrade={}", t, got, ver, usable));
             }
             Err(e) => t_v0.check(false, || format!("table={:?} v0 open failed: {:?}", t, e)),
         }
